@@ -100,7 +100,7 @@ def _run_pool(modname, cells, seed, tier, jobs, verbose):
 
 
 def load_known(pid):
-    p = os.path.join(VERIF, "known_findings.json")
+    p = os.environ.get("VERIF_KNOWN") or os.path.join(VERIF, "known_findings.json")  # override: experiments only
     if not os.path.exists(p):
         return []
     data = json.load(open(p))
